@@ -9,6 +9,10 @@ preservation by every public operation.
 set_option linter.unusedVariables false
 namespace AsherahVerif.Env
 
+/-- a bounded cache kind is usable: capacity at least 1 (with capacity 0 the first `Set` panics,
+see C15 `cap0_panics`). -/
+def kindOk (kind : Option (Cache.Kind × Nat)) : Prop := ∀ k cap, kind = some (k, cap) → 1 ≤ cap
+
 /-- cache `c` belongs to factory `fac` (its system-key cache or its shared intermediate-key cache). -/
 def fcaches (fac : Factory) (c : Nat) : Prop := fac.skCache = c ∨ fac.sharedIk = some c
 
@@ -57,7 +61,7 @@ def tabOf (w : World) : CTab :=
 structure Wired (w : World) : Prop where
   facOk : ∀ (f : Nat) (fac : Factory), w.facs[f]? = some fac →
     fac.skCache < w.caches.length ∧ (∀ c, fac.sharedIk = some c → c < w.caches.length ∧ c ≠ fac.skCache) ∧
-    fac.pol.sharedIK = fac.sharedIk.isSome ∧ fac.pol.skKind = none ∧ fac.pol.ikKind = none
+    fac.pol.sharedIK = fac.sharedIk.isSome ∧ kindOk fac.pol.skKind ∧ kindOk fac.pol.ikKind
   facDisj : ∀ (f f' : Nat) (fac fac' : Factory) (c : Nat), w.facs[f]? = some fac → w.facs[f']? = some fac' →
     fcaches fac c → fcaches fac' c → f = f'
   sesOk : ∀ (s : Nat) (ss : Session), w.sessions[s]? = some ss → ∃ fac, w.facs[ss.fac]? = some fac ∧
@@ -491,9 +495,9 @@ theorem QInv.closeFactory {w : World} (h : QInv w) (f : Nat) (fac : Factory) (hf
             · exact Or.inr (Or.inr e)
 
 
-/-- a new, empty, non-bounded cache at the end of the cache list. -/
+/-- a new, empty cache at the end of the cache list. -/
 theorem RIc.appendCache {T T' : CTab} {raw : Raw} {h : Nat → Int} {w : World} (hi : RIc T raw h w) (kc : KeyCache)
-    (hents : kc.ents = []) (hlat : kc.latest = []) (hnb : kc.mode ≠ .bounded)
+    (hents : kc.ents = []) (hlat : kc.latest = []) (hbnd : kc.mode = .bounded → BOK kc)
     (hd : ∀ c, c < w.caches.length → T'.dead c = T.dead c)
     (hm : ∀ c, T'.mode c = ((w.caches ++ [kc]).getD c default).mode)
     (hn : T'.n = T.n + 1) : RIc T' raw h { w with caches := w.caches ++ [kc] } := by
@@ -502,16 +506,7 @@ theorem RIc.appendCache {T T' : CTab} {raw : Raw} {h : Nat → Int} {w : World} 
     unfold cntOf
     show ((entCount T'.dead (w.caches ++ [kc]) o : Nat) : Int) + h o = _
     rw [entCount_append_empty _ _ _ _ hents, entCount_congr w.caches o hd]
-  have hmode : ∀ c, ((w.caches ++ [kc]).getD c default).mode = if c < w.caches.length then T.mode c else if c = w.caches.length then kc.mode else CacheMode.never := by
-    intro c
-    simp only [List.getD_eq_getElem?_getD, getElem?_append_single]
-    split
-    · rename_i hlt
-      rw [← hi.mode c, List.getD_eq_getElem?_getD]
-    · split
-      · rfl
-      · rfl
-  refine ⟨hi.len, hi.rawSec, hi.rawObj, hi.sec, hi.led, ?_, hi.hval, ?_, ?_, ?_, ?_⟩
+  refine ⟨hi.len, hi.rawSec, hi.rawObj, hi.sec, hi.led, ?_, hi.hval, ?_, ?_, ?_⟩
   · intro o k hk; rw [hcnt]; exact hi.acc o k hk
   · intro c kc' hc' hdc
     simp only [getElem?_append_single] at hc'
@@ -520,26 +515,31 @@ theorem RIc.appendCache {T T' : CTab} {raw : Raw} {h : Nat → Int} {w : World} 
       exact hi.ents c kc' hc' (by rw [← hd c hlt]; exact hdc)
     · split at hc'
       · cases hc'
-        refine ⟨?_, ?_, ?_, fun _ => hents⟩
+        refine ⟨?_, ?_, ?_, fun _ => hents, hbnd⟩
         · intro m e hme; rw [hents] at hme; cases hme
         · rw [hents]; exact List.nodup_nil
         · intro kid l hl; rw [hlat] at hl; cases hl
       · cases hc'
   · intro c; exact (hm c).symm
-  · intro c
-    rw [hm c, hmode c]
-    split
-    · exact hi.nb c
-    · split
-      · exact hnb
-      · decide
   · show (w.caches ++ [kc]).length = T'.n
     rw [hn, ← hi.clen]; simp
 
-theorem cacheOf_fresh (on : Bool) (a b : Nat) :
-    (cacheOf on none a b).ents = [] ∧ (cacheOf on none a b).latest = [] ∧ (cacheOf on none a b).mode ≠ .bounded := by
+theorem cacheOf_fresh (on : Bool) (kind : Option (Cache.Kind × Nat)) (hk : kindOk kind) (a b : Nat) :
+    (cacheOf on kind a b).ents = [] ∧ (cacheOf on kind a b).latest = [] ∧
+    ((cacheOf on kind a b).mode = .bounded → BOK (cacheOf on kind a b)) := by
   unfold cacheOf newCache
-  cases on <;> simp
+  cases on with
+  | false => simp
+  | true =>
+    cases kind with
+    | none => simp
+    | some kc =>
+      obtain ⟨k, cap⟩ := kc
+      simp only [Bool.not_true, Bool.false_eq_true, if_false, true_and]
+      intro _
+      refine ⟨Cache.inv_mk k cap 0 a b (hk k cap rfl), rfl, rfl, List.nodup_nil, ?_, ?_⟩
+      · intro s hs; simp [Cache.mk, Cache.keysOf] at hs
+      · intro m; simp [Cache.mk, Cache.keysOf]
 
 
 theorem nonShared_append {w w' : World} {fac : Factory} (hf : w'.facs = w.facs ++ [fac]) (ss : Session)
@@ -573,7 +573,7 @@ theorem Wired.addFactory {w w' : World} {fac : Factory} (hw : Wired w) (hs : w'.
     (hf : w'.facs = w.facs ++ [fac]) (hlen : w.caches.length ≤ w'.caches.length)
     (hsk : w.caches.length ≤ fac.skCache ∧ fac.skCache < w'.caches.length)
     (hsh : ∀ c, fac.sharedIk = some c → w.caches.length ≤ c ∧ c < w'.caches.length ∧ c ≠ fac.skCache)
-    (hpol : fac.pol.sharedIK = fac.sharedIk.isSome ∧ fac.pol.skKind = none ∧ fac.pol.ikKind = none)
+    (hpol : fac.pol.sharedIK = fac.sharedIk.isSome ∧ kindOk fac.pol.skKind ∧ kindOk fac.pol.ikKind)
     (hown : ∀ c, w.caches.length ≤ c → c < w'.caches.length → fcaches fac c) : Wired w' := by
   have hnew : ∀ c, fcaches fac c → w.caches.length ≤ c := by
     rintro c (rfl | hc)
@@ -636,15 +636,15 @@ theorem cacheDead_addFactory {w w' : World} {fac : Factory} (hw : Wired w) (hs :
     · exact Or.inr ⟨s', ss', by rw [hs]; exact h1, h2, by rw [hns _ _ h1]; exact h3, h4⟩
 
 theorem QInv.newFactory {w : World} (h : QInv w) (p : Policy) (a b c d : Nat)
-    (hnb : p.skKind = none ∧ p.ikKind = none) : QInv (newFactory p a b c d w).2 := by
-  simp only [Env.newFactory, bind_run, addCache, hnb.1, hnb.2]
-  have hf1 := cacheOf_fresh p.cacheSK a b
-  have hf2 := cacheOf_fresh true c d
+    (hnb : kindOk p.skKind ∧ kindOk p.ikKind) : QInv (newFactory p a b c d w).2 := by
+  simp only [Env.newFactory, bind_run, addCache]
+  have hf1 := cacheOf_fresh p.cacheSK p.skKind hnb.1 a b
+  have hf2 := cacheOf_fresh true p.ikKind hnb.2 c d
   cases hsh : p.sharedIK with
   | false =>
     simp only [Bool.false_eq_true, if_false, pure_run]
     let fac : Factory := { pol := p, skCache := w.caches.length, sharedIk := none }
-    let w' : World := { w with caches := w.caches ++ [cacheOf p.cacheSK none a b], facs := w.facs ++ [fac] }
+    let w' : World := { w with caches := w.caches ++ [cacheOf p.cacheSK p.skKind a b], facs := w.facs ++ [fac] }
     show QInv w'
     have hwd : Wired w' := by
       refine h.1.addFactory (w' := w') (fac := fac) rfl rfl (by simp [w']) ⟨Nat.le_refl _, by simp [w', fac]⟩
@@ -656,14 +656,14 @@ theorem QInv.newFactory {w : World} (h : QInv w) (p : Policy) (a b c d : Nat)
       omega
     refine ⟨hwd, ?_⟩
     have hd : ∀ c, cacheDead w' c = cacheDead w c := cacheDead_addFactory (fac := fac) h.1 rfl rfl rfl
-    have := RIc.appendCache (T' := tabOf w') h.2 (cacheOf p.cacheSK none a b) hf1.1 hf1.2.1 hf1.2.2
+    have := RIc.appendCache (T' := tabOf w') h.2 (cacheOf p.cacheSK p.skKind a b) hf1.1 hf1.2.1 hf1.2.2
       (fun c _ => hd c) (fun c => rfl) (by simp [tabOf, w'])
     exact RIc.frame this rfl rfl rfl
   | true =>
     simp only [if_true, pure_run, bind_run, addCache, List.length_append, List.length_cons, List.length_nil, Nat.zero_add]
     let fac : Factory := { pol := p, skCache := w.caches.length, sharedIk := some (w.caches.length + 1) }
-    let w1 : World := { w with caches := w.caches ++ [cacheOf p.cacheSK none a b] }
-    let w' : World := { w with caches := (w.caches ++ [cacheOf p.cacheSK none a b]) ++ [cacheOf true none c d], facs := w.facs ++ [fac] }
+    let w1 : World := { w with caches := w.caches ++ [cacheOf p.cacheSK p.skKind a b] }
+    let w' : World := { w with caches := (w.caches ++ [cacheOf p.cacheSK p.skKind a b]) ++ [cacheOf true p.ikKind c d], facs := w.facs ++ [fac] }
     show QInv w'
     have hwd : Wired w' := by
       refine h.1.addFactory (w' := w') (fac := fac) rfl (by simp [w', fac]) (by simp [w']) ⟨Nat.le_refl _, by simp [w', fac]⟩
@@ -680,9 +680,9 @@ theorem QInv.newFactory {w : World} (h : QInv w) (p : Policy) (a b c d : Nat)
     refine ⟨hwd, ?_⟩
     have hd : ∀ c, cacheDead w' c = cacheDead w c := cacheDead_addFactory (fac := fac) h.1 rfl (by simp [w', fac]) rfl
     let T1 : CTab := { dead := cacheDead w', mode := fun c => (w1.caches.getD c default).mode, n := w.caches.length + 1 }
-    have h1 : RIc T1 .none (hcount []) w1 := RIc.appendCache (T' := T1) h.2 (cacheOf p.cacheSK none a b) hf1.1 hf1.2.1 hf1.2.2
+    have h1 : RIc T1 .none (hcount []) w1 := RIc.appendCache (T' := T1) h.2 (cacheOf p.cacheSK p.skKind a b) hf1.1 hf1.2.1 hf1.2.2
       (fun c _ => hd c) (fun c => rfl) rfl
-    have h2 := RIc.appendCache (T' := tabOf w') h1 (cacheOf true none c d) hf2.1 hf2.2.1 hf2.2.2
+    have h2 := RIc.appendCache (T' := tabOf w') h1 (cacheOf true p.ikKind c d) hf2.1 hf2.2.1 hf2.2.2
       (fun c _ => rfl) (fun c => rfl) (by simp [tabOf, w', T1])
     exact RIc.frame h2 rfl rfl rfl
 
@@ -789,22 +789,23 @@ theorem QInv.getSession {w : World} (h : QInv w) (f part a b : Nat) (fac : Facto
     intro c _
     exact (cacheDead_addSession (w := w) (w' := w') (ss := ss) rfl rfl rfl c).symm
   | none =>
-    simp only [addCache, hfo.2.2.2.2]
-    have hfr := cacheOf_fresh fac.pol.cacheIK a b
+    simp only [addCache]
+    have hfr := cacheOf_fresh fac.pol.cacheIK fac.pol.ikKind hfo.2.2.2.2 a b
     let ss : Session := { fac := f, part := part, ikCache := w.caches.length }
-    let w' : World := { w with caches := w.caches ++ [cacheOf fac.pol.cacheIK none a b], sessions := w.sessions ++ [ss] }
+    let w' : World := { w with caches := w.caches ++ [cacheOf fac.pol.cacheIK fac.pol.ikKind a b], sessions := w.sessions ++ [ss] }
     show QInv w'
     refine ⟨h.1.addSession (w' := w') (ss := ss) (fac := fac) rfl rfl hfac (Or.inr ⟨hsi, rfl, by simp [w']⟩), ?_⟩
     have hd : ∀ c, cacheDead w' c = cacheDead w c := cacheDead_addSession (w := w) (w' := w') (ss := ss) rfl rfl rfl
-    have := RIc.appendCache (T' := tabOf w') h.2 (cacheOf fac.pol.cacheIK none a b) hfr.1 hfr.2.1 hfr.2.2
+    have := RIc.appendCache (T' := tabOf w') h.2 (cacheOf fac.pol.cacheIK fac.pol.ikKind a b) hfr.1 hfr.2.1 hfr.2.2
       (fun c _ => hd c) (fun c => rfl) (by simp [tabOf, w'])
     exact RIc.frame this rfl rfl rfl
 
 /-! ### well-formed histories -/
 
-/-- the restriction of the C09 proofs: only `never` / `simple` key caches (the SDK default). -/
-def NoBoundedOp : Op → Prop
-  | .newFactory p _ _ _ _ => p.skKind = none ∧ p.ikKind = none
+/-- bounded key caches have capacity ≥ 1 (capacity 0 is outside C15's and C09's quantifier: the
+first `Set` panics in Go). -/
+def CapsPosOp : Op → Prop
+  | .newFactory p _ _ _ _ => kindOk p.skKind ∧ kindOk p.ikKind
   | _ => True
 
 /-- an operation a caller can legitimately issue in world `w`: it names existing objects, uses
@@ -823,7 +824,7 @@ def validFrom (w : World) : List Op → Prop
   | [] => True
   | op :: rest => opOk w op ∧ validFrom (applyOp w op).2 rest
 
-def NoBounded (ops : List Op) : Prop := ∀ op, op ∈ ops → NoBoundedOp op
+def CapsPos (ops : List Op) : Prop := ∀ op, op ∈ ops → CapsPosOp op
 
 theorem applyOp_snd_eq (w : World) (op : Op) : (applyOp w op).2 = match op with
     | .newFactory p a b c d => (newFactory p a b c d w).2
@@ -840,7 +841,7 @@ theorem applyOp_snd_eq (w : World) (op : Op) : (applyOp w op).2 = match op with
     intro α f r; obtain ⟨r, w'⟩ := r; cases r <;> rfl
   cases op <;> first | exact wrap _ _ | rfl
 
-theorem QInv.applyOp {w : World} (h : QInv w) (op : Op) (hok : opOk w op) (hnb : NoBoundedOp op) :
+theorem QInv.applyOp {w : World} (h : QInv w) (op : Op) (hok : opOk w op) (hnb : CapsPosOp op) :
     QInv (applyOp w op).2 := by
   rw [applyOp_snd_eq]
   cases op with
@@ -861,16 +862,15 @@ theorem QInv.init (t : Int) : QInv (World.init t) := by
   · intro s ss h; simp [World.init] at h
   · intro s s' ss ss' h; simp [World.init] at h
   · intro c h; simp [World.init] at h
-  · refine ⟨rfl, fun s h => (by cases h), fun o h => (by cases h), ?_, ?_, ?_, ?_, ?_, ?_, ?_, rfl⟩
+  · refine ⟨rfl, fun s h => (by cases h), fun o h => (by cases h), ?_, ?_, ?_, ?_, ?_, ?_, rfl⟩
     · intro o k h; simp [World.init] at h
     · intro i s h; simp [World.init] at h
     · intro o k h; simp [World.init] at h
     · intro o h; simp [hcount] at h
     · intro c kc h; simp [World.init] at h
     · intro c; rfl
-    · intro c; simp [tabOf, World.init]; decide
 
-theorem QInv.runOps {w : World} (h : QInv w) (ops : List Op) (hv : validFrom w ops) (hnb : NoBounded ops) :
+theorem QInv.runOps {w : World} (h : QInv w) (ops : List Op) (hv : validFrom w ops) (hnb : CapsPos ops) :
     QInv (runOps w ops).2 := by
   induction ops generalizing w with
   | nil => exact h
